@@ -86,8 +86,8 @@ def run(prop, names, tier):
             rec["disagreements"] = n
             if n:
                 rec["failures"].append(dict(unit="standin", function=nm, message=f"{kind} stand-in {nm}: {n} disagreement(s)",
-                                            line=0, src=None, spans=[], rendered=json.dumps(dis)[:2500], engine=kind,
-                                            standin_witness=dis if not isinstance(dis, int) else None))
+                                            line=0, src=None, spans=[], rendered=json.dumps(dis if not isinstance(dis, int) else res.get("examples"))[:2500], engine=kind,
+                                            standin_witness=dis if not isinstance(dis, int) else ([x for x in (res.get("examples") or []) if not isinstance(x, dict) or x.get("regular", True)] or None)))
             if nm == "png-grid" and res.get("subbyte_wrong"):
                 rec["subbyte_total"] = res.get("subbyte_total"); rec["subbyte_wrong"] = res.get("subbyte_wrong")
                 rec["failures"].append(dict(unit="standin", function="png-grid-subbyte", message=f"Eb stand-in: {res['subbyte_wrong']} of {res['subbyte_total']} gray PNGs with bit depth < 8 do not decode to the expected samples",
